@@ -22,7 +22,7 @@ var R = hx.NewRecorder("C15", "cases = (endpoint kind: GMSSL client | GMSSL-only
 	"oracle = Handshake() returns (quiescence of the in-memory transport turns waiting into EOF; a read-after-EOF counter catches spinning), returns an error for every true deviation, HandshakeComplete stays false, no panic; legal variations (fragmented or coalesced messages, unknown ticket) must still succeed; non-trivial = deviation applied after at least one valid message or in the first message; distinct by hash of the plan")
 
 func TestMain(m *testing.M) {
-	R.Require("endpoint:gmclient", "endpoint:gmserver", "endpoint:autoserver", "endpoint:tlsserver", "endpoint:tlsclient", "vers_sweep_done", "dev:omit", "dev:repeat", "dev:retype", "dev:reorder", "dev:truncate", "dev:len_field", "dev:split", "dev:coalesce",
+	R.Require("dev:cert_list", "peer_pressed_on_after_alert", "endpoint:gmclient", "endpoint:gmserver", "endpoint:autoserver", "endpoint:tlsserver", "endpoint:tlsclient", "vers_sweep_done", "dev:omit", "dev:repeat", "dev:retype", "dev:reorder", "dev:truncate", "dev:len_field", "dev:split", "dev:coalesce",
 		"dev:oversize", "dev:ccs_early", "dev:appdata_early", "dev:alert_fatal", "dev:unknown_record", "dev:close", "dev:record_overflow", "replay_perturbed", "legal_must_succeed", "cke_1byte", "hostile_suites")
 	for d := 0; d <= 5; d++ {
 		R.Require(fmt.Sprintf("depth:%d", d))
@@ -40,7 +40,7 @@ type deviation struct {
 var serverSteps = []string{"ServerHello", "Certificate", "ServerKeyExchange", "CertificateRequest", "ServerHelloDone", "ChangeCipherSpec", "Finished"}
 var clientSteps = []string{"ClientHello", "ClientCertificate", "ClientKeyExchange", "CertificateVerify", "ChangeCipherSpec", "Finished"}
 
-var devKinds = []string{"omit", "repeat", "retype", "reorder", "truncate", "truncate_fixlen", "len_field", "split", "coalesce", "oversize", "ccs_early", "appdata_early", "alert_fatal", "alert_warning", "unknown_record", "unknown_hstype", "close", "record_overflow", "inner_byte"}
+var devKinds = []string{"omit", "repeat", "retype", "reorder", "truncate", "truncate_fixlen", "len_field", "split", "coalesce", "oversize", "ccs_early", "appdata_early", "alert_fatal", "alert_warning", "unknown_record", "unknown_hstype", "close", "record_overflow", "inner_byte", "cert_list"}
 
 func hsRecord(data []byte) []byte {
 	return append([]byte{22, 1, 1, byte(len(data) >> 8), byte(len(data))}, data...)
@@ -180,6 +180,43 @@ func planFor(d deviation) (*rgmssl.Plan, *bool, bool, string) {
 			return []rgmssl.Out{{RawRecord: true, Data: []byte{byte(24 + d.K%200), 1, 1, 0, 2, 0, 0}}, o}
 		case "unknown_hstype":
 			return []rgmssl.Out{{RecType: rgmssl.RecHS, Data: []byte{byte(30 + d.K%200), 0, 0, 1, 0}}, o}
+		case "cert_list":
+			// the Certificate message carries another list than the protocol requires (GM/T 0024: signing
+			// certificate then encryption certificate)
+			if !isHS || data[0] != 11 || len(data) < 7 {
+				*fired = false
+				return []rgmssl.Out{o}
+			}
+			var certs [][]byte
+			for rest := data[7:]; len(rest) >= 3; {
+				n := int(rest[0])<<16 | int(rest[1])<<8 | int(rest[2])
+				certs = append(certs, rest[3:3+n])
+				rest = rest[3+n:]
+			}
+			var list [][]byte
+			switch v := d.K % 5; {
+			case v == 0:
+			case v == 1 && len(certs) >= 2:
+				list = certs[:1]
+			case v == 2 && len(certs) >= 2:
+				list = certs[1:2]
+			case v == 3 && len(certs) >= 2:
+				list = [][]byte{certs[1], certs[0]}
+			case v == 4 && len(certs) >= 2:
+				list = [][]byte{certs[0], certs[0]}
+			case len(certs) == 1:
+				bad := append([]byte{}, certs[0]...)
+				bad[len(bad)/2] ^= 0x10
+				list = [][]byte{bad}
+			}
+			var body []byte
+			for _, c := range list {
+				body = append(body, byte(len(c)>>16), byte(len(c)>>8), byte(len(c)))
+				body = append(body, c...)
+			}
+			body = append([]byte{byte(len(body) >> 16), byte(len(body) >> 8), byte(len(body))}, body...)
+			o.Data = append([]byte{11, byte(len(body) >> 16), byte(len(body) >> 8), byte(len(body))}, body...)
+			return []rgmssl.Out{o}
 		case "record_overflow":
 			n := 16384 + 2048 + 1 + d.K%1000
 			rec := append([]byte{22, 1, 1, byte(n >> 8), byte(n)}, make([]byte, n)...)
@@ -250,8 +287,14 @@ func TestC15_ScriptedDeviations(t *testing.T) {
 		if !clientAuth && (d.Step == "CertificateRequest" || d.Step == "ClientCertificate" || d.Step == "CertificateVerify") {
 			clientAuth = true
 		}
+		if d.Kind == "cert_list" {
+			d.Step = map[bool]string{true: "Certificate", false: "ClientCertificate"}[ep == "gmclient"]
+			clientAuth = true
+		}
 		plan, fired, legal, eff := planFor(d)
 		d.Kind = eff
+		// half of the deviating peers press on after an alert instead of giving up
+		plan.IgnoreAlerts = rapid.Bool().Draw(t, "peerIgnoresAlerts")
 		seed := fmt.Sprint("d", n)
 		var r *tlsx.ScriptedResult
 		if ep == "gmclient" {
@@ -300,6 +343,9 @@ func TestC15_ScriptedDeviations(t *testing.T) {
 		}
 		judge(t, r, legal, *fired, desc)
 		cl := []string{"endpoint:" + ep, "dev:" + d.Kind, fmt.Sprintf("depth:%d", depthOf(steps, d.Step))}
+		if plan.IgnoreAlerts && r.Peer.AlertIn != nil {
+			cl = append(cl, "peer_pressed_on_after_alert")
+		}
 		if legal && *fired {
 			cl = append(cl, "legal_must_succeed")
 		}
